@@ -548,8 +548,8 @@ func TestVerifC03(t *testing.T) {
 			cases.Write(verifh.Case{In: in1, Impl: c03Canon(v1, err1)})
 			stats.Inc("stmt.fused")
 
-			// oracle 3: for a constant step the fused instruction equals the unfused sequence
-			if c.form != "v" && c03Canon(v0, err0) != c03Canon(v1, err1) {
+			// oracle 3: the fused instruction equals the unfused sequence, for every step operand
+			if c03Canon(v0, err0) != c03Canon(v1, err1) {
 				fails.Write(verifh.Failure{Class: "fused-differs:" + modeName, What: "Increment (optimizer level ≥ 2) differs from Load/Push/Add/Store",
 					Input: in1, Got: c03Canon(v1, err1), Want: c03Canon(v0, err0)})
 			}
